@@ -25,11 +25,12 @@ type Program struct {
 	ConFiles  []string
 	Findings  map[string]*Finding
 
-	mu       sync.Mutex
-	strIDs   map[string]int
-	typeTags map[string]int
-	tagTypes []types.Type
-	funcs    map[string]*ssa.Function // by pkgPath::RelString
+	mu        sync.Mutex
+	strIDs    map[string]int
+	typeTags  map[string]int
+	tagTypes  []types.Type
+	funcs     map[string]*ssa.Function // by pkgPath::RelString
+	implCache map[string][]implCand
 }
 
 const rootPkg = "github.com/hedzr/logg/slog"
